@@ -99,7 +99,10 @@ def to_str(eng, v):
         if v.ty == INT:
             return StrOfInt(v.term)
         if v.ty.kind == "opq":
-            # str() of an opaque library object: uninterpreted rendering
+            # str() of an opaque library object: uninterpreted rendering (assumed contract of the library)
+            h = eng.reg.ext.get("str.of." + v.ty.args[0])
+            if h is not None:
+                return h(eng, [v], {}, None)
             eng.used_assumptions.add("E-str-of-" + v.ty.args[0])
             return P(STR, uf("str_" + v.ty.args[0], sort_of(v.ty), S)(v.term))
     if isinstance(v, StrOfInt):
@@ -147,6 +150,8 @@ def binop_add(eng, a, b, node):
 
 
 def binop(eng, op, a, b, node):
+    if eng.bv_mode and (is_bv(a) or is_bv(b)):
+        return eng.bv_binop(op, a, b, node)
     if isinstance(op, ast.Add):
         return binop_add(eng, a, b, node)
     if isinstance(a, Conc) and isinstance(b, Conc):
@@ -171,8 +176,6 @@ def binop(eng, op, a, b, node):
         if eng.bv_mode:
             return P(INT, eng.term(a, INT) * eng.term(b, INT))
         raise Unsupported("non-linear multiplication")
-    if eng.bv_mode and type(op) in (ast.BitXor, ast.BitAnd, ast.BitOr, ast.RShift, ast.LShift):
-        return eng.bv_binop(op, a, b, node)
     x, y = eng.term(a, INT), eng.term(b, INT)
     if isinstance(op, ast.Sub):
         return P(INT, x - y)
@@ -198,6 +201,10 @@ def binop(eng, op, a, b, node):
             return P(INT, x % 2)
         raise Unsupported("bit-and outside bit-vector mode")
     raise Unsupported("binop %s" % type(op).__name__)
+
+
+def is_bv(v):
+    return isinstance(v, P) and v.ty.kind == "bv"
 
 
 def is_none(v):
@@ -227,6 +234,10 @@ def compare(eng, op, a, b, node):
         import operator
         f = {ast.Lt: operator.lt, ast.LtE: operator.le, ast.Gt: operator.gt, ast.GtE: operator.ge}[type(op)]
         return z3.BoolVal(f(a.v, b.v))
+    if is_bv(a) or is_bv(b):
+        w = (a if is_bv(a) else b).ty.args[0]
+        x, y = eng.bv_term(a, w), eng.bv_term(b, w)
+        return {ast.Lt: z3.ULT, ast.LtE: z3.ULE, ast.Gt: z3.UGT, ast.GtE: z3.UGE}[type(op)](x, y)
     x, y = eng.term(a, INT), eng.term(b, INT)
     if isinstance(op, ast.Lt):
         return x < y
@@ -272,8 +283,8 @@ def contains(eng, cont, item, node):
         return z3.Contains(c.term, z3.Unit(eng.term(item, c.ty.args[0])))
     if isinstance(c, ListV):
         return z3.Or([eng.equal(item, x) for x in c.items] or [z3.BoolVal(False)])
-    if isinstance(c, Special) and c.tag == "netobj":
-        return eng.reg.ext_call(eng, "ipaddress.contains", [c, item], {}, node)
+    if isinstance(c, P) and c.ty.kind == "opq":
+        return eng.reg.ext_call(eng, "%s.contains" % c.ty.args[0], [c, item], {}, node)
     raise Unsupported("membership in %r" % (c,))
 
 
@@ -326,6 +337,10 @@ def slice_(eng, base, lo, hi, node):
 
 
 def index(eng, base, idx, node):
+    if isinstance(base, OptV):
+        if not eng.spec_mode:
+            eng.safety("subscript-on-None", base.some, node)
+        base = base.val
     c = cell(eng, base)
     if isinstance(c, Conc):
         v = c.v
@@ -346,7 +361,10 @@ def index(eng, base, idx, node):
                 return c.items[idx.v]
             except IndexError:
                 raise RaiseSig("IndexError")
-        raise Unsupported("symbolic index into list with concrete spine")
+        sq = seq_of(eng, base)
+        if sq is None:
+            raise Unsupported("symbolic index into empty list")
+        c = sq
     if isinstance(c, TupV):
         if isinstance(idx, Conc):
             return c.items[idx.v]
@@ -648,7 +666,12 @@ def apply(eng, f, args, kwargs, n):
 
 # ---- builtins
 def bi_len(eng, args, kw, n):
-    c = cell(eng, args[0])
+    a0 = args[0]
+    if isinstance(a0, OptV):
+        if not eng.spec_mode:
+            eng.safety("len-of-None", a0.some, n)
+        a0 = a0.val
+    c = cell(eng, a0)
     if isinstance(c, Conc):
         return Conc(len(c.v))
     if isinstance(c, ListV):
@@ -814,10 +837,42 @@ def bi_sum(eng, args, kw, n):
     return P(INT, acc)
 
 
+def seq_of(eng, v):
+    """Unwrap Optional / heap cell to a symbolic sequence value P(SeqT) (or None)."""
+    if isinstance(v, OptV):
+        v = v.val
+    c = cell(eng, v)
+    if isinstance(c, ListV):
+        items = c.items
+        if not items:
+            return None
+        ety = None
+        for it in items:
+            if isinstance(it, P):
+                ety = it.ty
+        if ety is None:
+            ety = eng.conc_type(items[0])
+        return P(SeqT(ety), eng.term(Conc([]), SeqT(ety)) if not items else
+                 z3.Concat(*[z3.Unit(eng.term(i, ety)) for i in items]) if len(items) > 1
+                 else z3.Unit(eng.term(items[0], ety)))
+    if isinstance(c, P) and c.ty.kind == "seq":
+        return c
+    return None
+
+
 def bi_any(eng, args, kw, n):
     a = cell(eng, args[0])
-    if isinstance(a, Special) and a.tag == "anyq":
-        return P(BOOL, a.term)
+    if isinstance(a, Special) and a.tag == "mapped":
+        # any(f(x) for x in L) over a symbolic sequence: fresh Bool r with
+        #   r => f(L[w]) for a witness index w;   forall i. f(L[i]) => r
+        r = z3.Bool(eng.fresh_name("any"))
+        w = z3.Int(eng.fresh_name("any.w"))
+        ln = z3.Length(a.src.term)
+        eng.st.pc.append(z3.Implies(r, z3.And(w >= 0, w < ln, z3.substitute(a.body, (a.ivar, w)))))
+        j = z3.Int(eng.fresh_name("any.j"))
+        eng.st.schemas.append(Schema("any.def", [j], z3.Implies(
+            z3.And(j >= 0, j < ln, z3.substitute(a.body, (a.ivar, j))), r)))
+        return P(BOOL, r)
     items = iter_concrete(eng, args[0])
     return P(BOOL, z3.Or([eng.truth(i) for i in items] or [z3.BoolVal(False)]))
 
@@ -979,14 +1034,20 @@ def cell_method(eng, recv, name, args, kw, n):
             list_extend(eng, recv, args[0])
             return NoneV()
         raise Unsupported("list method %s" % name)
+    if isinstance(c, P) and c.ty.kind == "seq" and name == "extend":
+        list_extend(eng, recv, args[0])
+        return NoneV()
     return eng.reg.cell_method(eng, recv, c, name, args, kw, n)
 
 
 def list_extend(eng, ref, other):
     c = eng.st.heap[ref.rid]
     if isinstance(c, ListV):
-        eng.st.heap[ref.rid] = ListV(c.items + iter_concrete(eng, other))
-        return
+        try:
+            eng.st.heap[ref.rid] = ListV(c.items + iter_concrete(eng, other))
+            return
+        except Unsupported:
+            pass
     return eng.reg.list_extend(eng, ref, c, other)
 
 
